@@ -38,6 +38,24 @@ CHECKS = {
    note=BASE_NOTE + 'Model of the guards is hand-written; it is compared with the implementation on all cells; theorems are closed under the global context (no axioms).',
    technique='Coq decision-table model, finite-domain proof by computation + exhaustive execution of the request grid',
    design='DESIGN.md §3 C20'),
+ 'C01': dict(
+   text=('PARTIAL by nature. Theorems (Coquelicot): the oracles the inverse transforms are judged against are true Abel pairs -- '
+         'abel_bump for every p (induction), the exact Gaussian factorisation, an Interval enclosure of the Gaussian constant, the '
+         'closed form within 2^-39 of the finite-range line integral, Abel scaling with pixel size; per-run Interval goals tie the '
+         'floats of the Python oracles to the Coq terms. The property\'s envelope, refinement and dr clauses for the ten numerical '
+         'schemes are NOT theorems: they are decided by a numeric sweep (all methods, documented options, families, sizes) against '
+         'calibrated envelope laws (1.5 x fitted K (dr/scale)^q) and produce replays; C09/C03/C04 carry the exactness theorems.'),
+   note=BASE_NOTE + 'Envelope/refinement clauses swept only (discretisation-error analysis of ten schemes is not mechanised); Gaussian integral value and equivalence of proper/singular Abel forms trusted; ring projections by scipy quadrature; two recorded refinement-floor findings.',
+   technique='Coq/Coquelicot proofs of the Abel-pair oracles + Interval-checked oracle tie + calibrated numeric sweep (labelled swept, not proved)',
+   design='DESIGN.md §3 C01, §6'),
+ 'C02': dict(
+   text=('PARTIAL by nature, same structure as C01 for the forward direction: oracle theorems (bump, Gaussian, scaling: a forward '
+         'transform of f(r/a) scales by a, i.e. the absolute scale set by dr), per-run Interval goals for the oracle floats; the '
+         'envelope, refinement and exact-dr clauses for basex, daun, direct, hansenlaw, rbasex are decided by the calibrated numeric '
+         'sweep with replays.'),
+   note=BASE_NOTE + 'Envelope/refinement clauses swept only; two recorded refinement-floor findings (basex correction=False, hansenlaw hold_order=1).',
+   technique='Coq/Coquelicot proofs of the Abel-pair oracles + Interval-checked oracle tie + calibrated numeric sweep (labelled swept, not proved)',
+   design='DESIGN.md §3 C02, §6'),
  'C03': dict(
    text=('Theorems (mathcomp, any field, any size, any data matrix) over terms REGENERATED from the current source by '
          'tools/translate/matrix_expr.py (symbolic execution of daun_transform, basex _get_A/get_bs_cached/basex_core_transform, '
@@ -60,6 +78,17 @@ CHECKS = {
    note=BASE_NOTE + 'Linearity of direct, onion_bordas, linbasex, rbasex image synthesis, set_center, radial_intensity, Distributions is checked on the implementation only; scipy.ndimage interpolation assumed linear; Hansen-Law Q instance rounds to 120 bits.',
    technique='Coq proofs (mathcomp + induction) over regenerated expressions + operator extraction on implementation',
    design='DESIGN.md §3 C04'),
+ 'C09': dict(
+   text=('Theorems (Coquelicot, unbounded in indices and sizes) over closed forms REGENERATED from the current source by '
+         'tools/translate/formulas_basis.py: every daun entry of degrees 0-2 and the degree-3 Hermite pair equals the Abel integral of '
+         'its basis function; onion-peeling W equals the degree-0 projection transposed; every two_point / three_point operator '
+         'entry (rows i >= 1) equals the inverse-Abel integral of the interpolant; rbasex entries for orders 0..8 and the F '
+         'recursion step. Tie: regeneration, bit-exact structure check of the symbolic assembly against the implementation, '
+         'per-run interval/integral goals (machine-checked instances). Search: scipy quadrature of the defining integrals against '
+         'the implementation incl. basex, daun 3 spline, large indices.'),
+   note=BASE_NOTE + 'basex projections and the daun-3 clamped-spline solve have no theorem (instances + quadrature sweep); Dasch axis row is a documented convention.',
+   technique='Coq/Coquelicot proofs over source-regenerated closed forms + Interval translation validation + quadrature search',
+   design='DESIGN.md §3 C09'),
  'C12': dict(
    text=('Theorems (Coq, every shape, every origin): set_center with a whole-pixel origin is the stated translation for the '
          'three crop modes (pixel formula + shape; valid_region maximal; maintain_data keeps every pixel), axes not selected or '
